@@ -218,7 +218,25 @@ pub fn check_c14(ctx: &mut Ctx, cfg: &Cfg, how: How) {
             if n > 0 {
                 let data = drive::exact(&buf);
                 match iterate(&data) {
-                    Err(p) => ctx.violate("parse-back", "compound", "panic", case, "Compound::parse + iteration return", format!("panic at {}: {}", short_site(&p.site), p.msg)),
+                    Err(p) => {
+                        // does the generic parser (or the Debug rendering of what it returns) unwind on one of the
+                        // members on its own? then "equal to the member parsed on its own" is not what fails
+                        let mut off = 0usize;
+                        let mut alone_panics = false;
+                        for l in &member_lens {
+                            let tile = &data[off..(off + l).min(data.len())];
+                            off += l;
+                            if call(|| format!("{:?}", Packet::parse(tile))).is_err() {
+                                alone_panics = true;
+                                break;
+                            }
+                        }
+                        if alone_panics {
+                            ctx.class("c14:other-property:member-parse-panics-on-its-own(C01)");
+                        } else {
+                            ctx.violate("parse-back", "compound", "panic", case, "Compound::parse + iteration return", format!("panic at {}: {}", short_site(&p.site), p.msg));
+                        }
+                    }
                     Ok(Err(e)) => ctx.violate("parse-back", "compound", variant_name(&format!("{e:?}")), case, "Compound::parse accepts the written compound", format!("Err({e:?})")),
                     Ok(Ok(items)) => {
                         // "one packet per member, each equal to the member parsed on its own": the bytes were
